@@ -178,7 +178,7 @@ func C09(c *hx.Ctx) {
 	c.Rule = "writer side: for each scenario (xz/lzma/lzma2 x configurations incl. multi-block and multi-chunk x call histories incl. Flush, redundant Close, Write after Close) a fault-free dry run counts the sink writes M; every plan (k in 1..M) x {once, forever} x {no partial, partial write} from the TLC-generated plan set is replayed (sink as plain io.Writer and as io.ByteWriter); reader side: every valid base stream x every source offset k x {error alone, error together with the last bytes}; recorded fault runs validated by TLC (TraceIo/FaultContract); non-trivial = fault index at which at least one later call is made"
 	c.Assumptions = []string{"TLC (IoContract.FaultContract, IoGen plans)", "reference decoders judge 'complete valid stream'"}
 	c.Exhaustive = true
-	c.Level = "model_checking"
+	c.Level = "fault_enumeration"
 	cfg := "SPECIFICATION GSpec\nCONSTANTS Lens = {1}\n SchedLen = 1\n MaxK = 96\n N0 = 1\nINVARIANTS PrefixDelivered EndedMeansAll\nCHECK_DEADLOCK FALSE\n"
 	g := c.TLC(tlc.Opts{Module: "IoGen", Cfg: "gen.cfg", Files: map[string][]byte{"gen.cfg": []byte(cfg)}, Timeout: 5 * time.Minute, Xss: "64m"})
 	var plans []faultPlan
